@@ -1,5 +1,6 @@
 import Enc.Model.Json.CodecChoiceExpand
 import Enc.Spec.Json.StdCodecChoice
+import Enc.Spec.Json.EmbedCycle
 /-!
 Driver for the op `json.codecchoice <descriptor>` (same grammar as harness/c01codec.go, which DERIVES the descriptor
 from a Go value by reflection):
@@ -281,38 +282,28 @@ def renderTop (top : Nat → Env → TD → Choice) (env : Env) (t : TD) : Strin
 itself under construction (the embedding struct lies inside `typ`, e.g. `type T struct { X int; F []struct{ T } }`
 marshalled through a pointer) that list is still empty: the embedding struct silently loses the promoted fields. -/
 
-mutual
-partial def childTypes (env : Env) : TD → List TD
-  | .slice e | .array _ e | .ptr e => [e]
-  | .map k v => [k, v]
-  | .struct fs => childTypesF fs
-  | .ref id => (match env.lookup id with | some d => [d.under] | none => [])
-  | _ => []
-partial def childTypesF : FL → List TD
-  | .nil => []
-  | .cons _ _ _ t r => t :: childTypesF r
-end
-
-partial def reaches (env : Env) (fuel : Nat) (src target : TD) : Bool :=
-  fuel != 0 && (childTypes env src).any fun x => x == target || reaches env (fuel - 1) x target
+/-- the shape is excluded from `choose_eq_std` by the hypothesis `embedsRecursive env t = false`
+(Spec/Json/EmbedCycle.lean: some struct inside `t` embeds a struct type that contains the embedding struct again) -/
+def embedsRecursive1 (env : Env) (t : TD) : Bool := Enc.Spec.Json.EmbedCycle.embedsRecursive env t
 
 mutual
-partial def embeddedStructs (env : Env) : TD → List TD
-  | .slice e | .array _ e | .ptr e => embeddedStructs env e
-  | .map k v => embeddedStructs env k ++ embeddedStructs env v
-  | .struct fs => embeddedStructsF env fs
+/-- the types of the contents of the interfaces in the value under test (each is compiled on its own, through the cache) -/
+def dyns : TD → List TD
+  | .any d => d :: dyns d
+  | .iface _ _ d => d :: dyns d
+  | .slice e | .array _ e | .ptr e => dyns e
+  | .map k v => dyns k ++ dyns v
+  | .struct fs => dynsF fs
   | _ => []
-partial def embeddedStructsF (env : Env) : FL → List TD
+def dynsF : FL → List TD
   | .nil => []
-  | .cons _ emb _ ft r =>
-    let typ := match ft with | .ptr e => e | t => t
-    (if emb && isStructKind (under env typ) then [typ] else []) ++ embeddedStructs env ft ++ embeddedStructsF env r
+  | .cons _ _ _ t r => dyns t ++ dynsF r
 end
 
-/-- some struct embeds a struct type that contains the embedding struct again -/
+/-- the root type, or the type of the content of an interface inside the value, has the excluded shape -/
 def embedsRecursive (env : Env) (t : TD) : Bool :=
-  let all := embeddedStructs env t ++ env.flatMap fun (_, d) => embeddedStructs env d.under
-  all.any fun typ => reaches env 12 typ typ
+  let roots := t :: (dyns t ++ env.flatMap fun (_, d) => dyns d.under)
+  roots.any (embedsRecursive1 env)
 
 def run (d : String) : Option (String × String × String) := do
   let (env, t) ← parse d
